@@ -1088,6 +1088,8 @@ impl<E: Effect> Executor<E> {
     /// Execute up to max_units instruction units for a single process.
     /// Returns (did_work, optional_action) where did_work indicates if any instructions were executed.
     pub fn step(&mut self, max_units: usize, current_time_ms: u64) -> (bool, Option<Action<E>>) {
+        #[cfg(feature = "verif")]
+        let max_units = crate::verif::quantum().unwrap_or(max_units);
         // Reclaim slots that settled at count 0 since the last step. Doing it here (a quiescent
         // point — any Action returned by the previous step has been handled by the Environment,
         // and no Rust-local Value handles are live) is what makes deferred reclamation safe.
@@ -1105,6 +1107,8 @@ impl<E: Effect> Executor<E> {
         let Some(mut proc) = self.processes.remove(&current_pid) else {
             return (false, None);
         };
+        #[cfg(feature = "verif")]
+        crate::verif::emit(crate::verif::Event::Run { pid: current_pid });
 
         let mut units_executed = 0;
         let mut pending_request = None;
@@ -1139,6 +1143,8 @@ impl<E: Effect> Executor<E> {
                 Err(error) => {
                     proc.result = Some(Err(error.clone()));
                     proc.frames.clear();
+                    #[cfg(feature = "verif")]
+                    crate::verif::emit(crate::verif::Event::Failed { pid: current_pid });
                 }
             }
 
@@ -1153,6 +1159,11 @@ impl<E: Effect> Executor<E> {
             }
         }
 
+        #[cfg(feature = "verif")]
+        crate::verif::emit(crate::verif::Event::Units {
+            pid: current_pid,
+            units: units_executed,
+        });
         // Return the process to the map; the bookkeeping below operates via the map as before.
         self.processes.insert(current_pid, proc);
 
@@ -2209,6 +2220,13 @@ impl<E: Effect> Executor<E> {
             receiving: None,
         });
 
+        #[cfg(feature = "verif")]
+        crate::verif::emit(crate::verif::Event::SelectInit {
+            pid,
+            sources: receive_count,
+            targets: pid_targets.clone(),
+            now: current_time_ms,
+        });
         // If we found PIDs, register awaits before processing sources
         if !pid_targets.is_empty() {
             for target in &pid_targets {
@@ -2275,11 +2293,21 @@ impl<E: Effect> Executor<E> {
                     if let Some(value) =
                         self.handle_select_timeout(timeout_ms, start_time, current_time_ms)?
                     {
+                        #[cfg(feature = "verif")]
+                        crate::verif::emit(crate::verif::Event::SelectComplete {
+                            pid,
+                            source: src_idx,
+                        });
                         return self.complete_select(pid, value);
                     }
                 }
                 Value::Process(target_pid, _) => {
                     if let Some(value) = self.handle_select_process(pid, *target_pid)? {
+                        #[cfg(feature = "verif")]
+                        crate::verif::emit(crate::verif::Event::SelectComplete {
+                            pid,
+                            source: src_idx,
+                        });
                         return self.complete_select(pid, value);
                     }
                 }
@@ -2293,6 +2321,11 @@ impl<E: Effect> Executor<E> {
                         receive_result.as_ref(),
                     )? {
                         SelectResult::Complete(value) => {
+                            #[cfg(feature = "verif")]
+                            crate::verif::emit(crate::verif::Event::SelectComplete {
+                                pid,
+                                source: src_idx,
+                            });
                             return self.complete_select(pid, value);
                         }
                         SelectResult::CalledFunction => {
@@ -2321,6 +2354,8 @@ impl<E: Effect> Executor<E> {
             }
         }
 
+        #[cfg(feature = "verif")]
+        crate::verif::emit(crate::verif::Event::SelectPark { pid });
         // No sources ready - mark as selecting
         self.mark_selecting(pid);
         Ok(None)
@@ -2402,6 +2437,12 @@ impl<E: Effect> Executor<E> {
         let result = receive_result.ok_or(Error::InvalidArgument(
             "Receive result should be present when receiving is set".to_string(),
         ))?;
+        #[cfg(feature = "verif")]
+        crate::verif::emit(crate::verif::Event::FilterVerdict {
+            pid,
+            receive: receive_idx,
+            accepted: !result.is_nil(),
+        });
 
         // A filter accepts the message on any non-nil result and skips it on nil — matching
         // Quiver's truthiness convention everywhere else (nil is the only "no"). The filter's
@@ -2552,6 +2593,12 @@ impl<E: Effect> Executor<E> {
             .remove(&pid)
             .ok_or(Error::InvalidArgument("Process not found".to_string()))?;
 
+        #[cfg(feature = "verif")]
+        crate::verif::emit(crate::verif::Event::FilterCall {
+            pid,
+            receive: receive_idx,
+            message: msg_idx,
+        });
         // The message clone enters the select_state.receiving slot.
         self.retain(&message);
         if let Some(state) = &mut proc.select_state {
@@ -2689,6 +2736,12 @@ impl<E: Effect> Executor<E> {
             .copied()
             .collect();
 
+        #[cfg(feature = "verif")]
+        if !expired.is_empty() {
+            crate::verif::emit(crate::verif::Event::Expired {
+                pids: expired.clone(),
+            });
+        }
         // Re-queue expired processes to retry their Select instruction
         for pid in expired {
             self.queue.push_back(pid);
@@ -2892,6 +2945,42 @@ impl<E: Effect> Executor<E> {
 
         // Remap value indices
         remap_heap_indices(&value, &index_map)
+    }
+}
+
+#[cfg(feature = "verif")]
+impl<E: Effect> Executor<E> {
+    /// Read-only snapshot of private scheduling and heap bookkeeping (verification harness).
+    pub fn verif_view(&self) -> crate::verif::ExecutorView {
+        fn sorted(set: &HashSet<ProcessId>) -> Vec<ProcessId> {
+            let mut v: Vec<ProcessId> = set.iter().copied().collect();
+            v.sort_unstable();
+            v
+        }
+        let mut process_ids: Vec<ProcessId> = self.processes.keys().copied().collect();
+        process_ids.sort_unstable();
+        crate::verif::ExecutorView {
+            queue: self.queue.iter().copied().collect(),
+            spawning: sorted(&self.spawning),
+            selecting: sorted(&self.selecting),
+            effecting: sorted(&self.effecting),
+            process_ids,
+            refcounts: self.refcounts.clone(),
+            freed: self.freed.clone(),
+            free: self.free.clone(),
+            pending_free: self.pending_free.clone(),
+            constant_slots: self
+                .constant_binaries
+                .iter()
+                .flatten()
+                .filter_map(|b| match b {
+                    Binary::Heap(i) => Some(*i),
+                    _ => None,
+                })
+                .collect(),
+            contents: self.heap.iter().map(BinaryData::to_vec).collect(),
+            next_ref: self.next_ref,
+        }
     }
 }
 
